@@ -50,6 +50,9 @@ DFXP_PIECES = [
     ("&lt;", "&amp;lt;", "entity-text-encoded-once"),
     ("&amp;", "&amp;amp;", "entity-text-encoded-once"),
     ("&#65;", "&amp;#65;", "entity-text-encoded-once"),
+    ("&apos;", "&amp;apos;", "entity-text-encoded-once"),
+    ("&quot;", "&amp;quot;", "entity-text-encoded-once"),
+    ("&gt;", "&amp;gt;", "entity-text-encoded-once"),
     ('"', "&quot;", "quot"),
     ("'", "&apos;", "apos-named"),
     ("'", "'", "apos-literal"),
@@ -78,6 +81,10 @@ SAMI_PIECES = [
     ("&lt;", "&amp;lt;", "entity-text-encoded-once"),
     ("&amp;", "&amp;amp;", "entity-text-encoded-once"),
     ("&nbsp;", "&amp;nbsp;", "entity-text-encoded-once"),
+    ("&apos;", "&amp;apos;", "entity-text-encoded-once"),
+    ("&quot;", "&amp;quot;", "entity-text-encoded-once"),
+    ("&gt;", "&amp;gt;", "entity-text-encoded-once"),
+    ("&eacute;", "&amp;eacute;", "entity-text-encoded-once"),
     ("<x>", "&lt;x&gt;", "markup-text-named"),
     ("<x>y", "&#60;x&#62;y", "markup-text-decimal"),
     ("<i>", "&#x3c;i&#x3e;", "markup-text-hex"),
@@ -109,8 +116,13 @@ VTT_PIECES = [
     (">", ">", "gt-literal"),
     ("&lt;", "&amp;lt;", "entity-text-encoded-once"),
     ("&amp;", "&amp;amp;", "entity-text-encoded-once"),
+    ("&gt;", "&amp;gt;", "entity-text-encoded-once"),
+    ("&nbsp;", "&amp;nbsp;", "entity-text-encoded-once"),
+    ("&lrm;", "&amp;lrm;", "entity-text-encoded-once"),
+    ("&rlm;", "&amp;rlm;", "entity-text-encoded-once"),
     ("x" + NB + "y", "x&nbsp;y", "nbsp"),
     ("a\u200eb", "a&lrm;b", "lrm"),
+    ("a\u200fb", "a&rlm;b", "rlm"),
     ("<i>x</i>", "&lt;i&gt;x&lt;/i&gt;", "known-tag-text-escaped"),
     ("a <b and b> c", "a &lt;b and b&gt; c", "known-tag-text-escaped"),
     ("<v Bob> hi", "&lt;v Bob&gt; hi", "known-tag-text-escaped"),
